@@ -26,6 +26,9 @@ fn scenarios() -> Vec<Scn> {
         Scn { name: "S7-panicking-leaf", files: vec!["b.p=7", "l0.l=1", "t.n=X:b L:l0"], loads: vec!["load N t"], touched: vec!["t.n", "b.p", "l0.l"] },
         Scn { name: "S8-caught-panic", files: vec!["b.p=7", "l1.l=2", "t.n=p:b L:l1"], loads: vec!["load N t"], touched: vec!["t.n", "b.p", "l1.l"] },
         Scn { name: "S14-panicking-leaf-and-independent-assets", files: vec!["b.p=7", "l0.l=1", "l1.l=2", "t.n=L:l1"], loads: vec!["load P b", "load L l0", "load N t"], touched: vec!["b.p", "l0.l", "l1.l", "t.n"] },
+        Scn { name: "S15-wide-node", files: vec!["l0.l=1", "l1.l=2", "l9.l=9", "f.m=3", "f.l=4", "d.a.l=5", "m.n=L:l1 O:l9", "t.n=N:m L:l0 D:d M:f"], loads: vec!["load N t"], touched: vec!["t.n", "m.n", "l0.l", "l1.l", "l9.l", "f.m", "f.l"] },
+        Scn { name: "S16-three-level-chain", files: vec!["l0.l=1", "m.n=L:l0", "t.n=N:m", "u.n=N:t l:nope"], loads: vec!["load N u"], touched: vec!["u.n", "t.n", "m.n", "l0.l"] },
+        Scn { name: "S17-two-roots-sharing-a-leaf", files: vec!["l0.l=1", "l1.l=2", "t.n=L:l0 L:l1", "m.n=L:l0"], loads: vec!["load N t", "load N m"], touched: vec!["t.n", "m.n", "l0.l", "l1.l"] },
         Scn { name: "S9-recdir", files: vec!["d.a.l=5", "d.sub.c.l=7"], loads: vec!["load RecL d"], touched: vec![] },
         Scn { name: "S10-owned", files: vec!["l0.l=1"], loads: vec!["owned L l0"], touched: vec!["l0.l"] },
         Scn { name: "S12-two-owned-in-node", files: vec!["l0.l=1", "l1.l=2", "t.n=O:l0 O:l1"], loads: vec!["load N t"], touched: vec!["t.n", "l0.l", "l1.l"] },
@@ -41,8 +44,9 @@ fn cfg_for(s: &Scn, seed: u64) -> HCfg {
         ctor: "hot".into(),
         seed,
         with_other: false,
-        leaves: vec!["l0".into(), "l1".into(), "f".into(), "b".into(), "d.a".into(), "d.sub.c".into()],
-        nodes: vec!["t".into(), "m".into()],
+        // (every file of a scenario is read by exactly one asset per pass, so a one-shot entry fault is unambiguous)
+        leaves: vec!["l0".into(), "l1".into(), "l9".into(), "f".into(), "b".into(), "d.a".into(), "d.sub.c".into()],
+        nodes: vec!["t".into(), "m".into(), "u".into()],
         dirs: vec!["d".into(), "d.sub".into()],
         files: s.files.iter().map(|x| x.to_string()).collect(),
         check_c05: true,
@@ -77,14 +81,16 @@ fn tail(s: &Scn) -> Vec<String> {
 }
 
 pub fn run(args: &Args) -> SubResult {
+    let args = args.clone();
+    let args = &args;
     let mut res = SubResult::new("C09", "c09_faults");
     let scs = scenarios();
-    res.bound = format!("{} scenarios x (every source access index of the initial load x 6 io::ErrorKinds; every file made undecodable / panicking before the initial load; every file's read faulted x 6 kinds during a reload; every file made undecodable / panicking before a reload), each followed by repair, retry / re-notification, and one notified edit per file", scs.len());
+    res.bound = format!("{} scenarios x (every source access index of the initial load x 6 io::ErrorKinds; every file made undecodable / panicking before the initial load; every file's read faulted x 6 kinds during a reload; every file made undecodable / panicking before a reload), each followed by repair, retry / re-notification, and one notified edit per file; thorough: also every pair (k, j) of fault positions on the first attempt and on the retry", scs.len());
     res.rule = "fault enumeration is exhaustive over access indices (counted on a fault-free run) and files of each scenario; executed on the real cache under detsched (reloads on the real reloader thread); oracle = reference evaluator with the same fault plan + deadlock/spin detection; distinct = distinct (canonical state, observations)".into();
     let total = scs.len();
     vcommon::run_cases(args, res, total, std::time::Duration::from_secs(300), |idx, res| {
         let s = &scs[idx];
-        let cfg = cfg_for(s, (idx as u64 % 2) * 5);
+        let cfg = cfg_for(s, ((idx as u64 + args.seed) % 2) * 5);
         let loads: Vec<String> = s.loads.iter().map(|x| x.to_string()).collect();
         let mut run = |res: &mut SubResult, ops: Vec<String>, what: String| {
             let r = run_history(&cfg, &ops, &[]);
@@ -130,6 +136,25 @@ pub fn run(args: &Args) -> SubResult {
                 ops.extend(loads.iter().cloned()); // retry
                 ops.extend(tail(s));
                 run(res, ops, format!("initial load, access #{k} fails with {kind}"));
+            }
+        }
+        // A2 (thorough). fault SEQUENCES: the first attempt faults at access k, the retry at access j,
+        // the third attempt is clean
+        if args.thorough() {
+            for k in 0..n_access {
+                for j in 0..n_access {
+                    for kind in ["Other", "NotFound"] {
+                        let mut ops = vec![format!("fault {k} {kind}")];
+                        ops.extend(loads.iter().cloned());
+                        ops.push("nofault".into());
+                        ops.push(format!("fault {j} {kind}"));
+                        ops.extend(loads.iter().cloned());
+                        ops.push("nofault".into());
+                        ops.extend(loads.iter().cloned());
+                        ops.extend(tail(s));
+                        run(res, ops, format!("initial load: access #{k} fails, the retry fails at access #{j} ({kind})"));
+                    }
+                }
             }
         }
         // B. loader faults during the initial load (undecodable / panicking content), then repair
